@@ -151,6 +151,11 @@ partial def loop (h : IO.FS.Stream) (d : DS) : IO Unit := do
     loop h { d with nextGid := first + lens.length }
   | .wd, ["Q"] => IO.println s!"R wire={wireStr d}"; loop h d
   | .e2e, "O" :: "run" :: rest =>
+    if (Drv.field rest "skip") == some "1" then do
+      -- the harness's client ran into its own deadline on an overloaded machine: nothing is claimed for this case
+      IO.println "R skipped"
+      loop h d
+    else
     let msgs := ((Drv.field rest "msgs").map String.toNat!).getD 0
     let writers := ((Drv.field rest "writers").map String.toNat!).getD 0
     let size := ((Drv.field rest "size").map String.toNat!).getD 0
